@@ -1171,8 +1171,13 @@ pub fn gen_case(tier: Tier, seed: u64, idx: u64) -> Case {
             origin.push("far-right-dual-location".to_string());
             // an error with two locations whose "defined here" marker lies beyond column 65535 (reached by a
             // flow mapping on one line; cropping switched off by a huge radius, or on)
-            let n = *rng.pick(&[65_520usize, 65_536, 70_000, 140_000]);
-            let pad = if rng.chance(1, 2) { "a".repeat(n) } else { "é".repeat(n) };
+            let n = *rng.pick(&[65_520usize, 65_536, 70_000, 140_000, 33_000, 50_000, 59_990]);
+            // (double-width characters: half as many fill the same number of columns)
+            let pad = match rng.below(3) {
+                0 => "a".repeat(n),
+                1 => "é".repeat(n),
+                _ => "日".repeat(n),
+            };
             match rng.below(3) {
                 0 => format!("{{ name: \"{pad}\", flag: &x true, n: *x }}\n"),
                 1 => format!("{{ name: \"{pad}\", n: 1, zzz: [1, 2] }}\n"),
@@ -1192,7 +1197,14 @@ pub fn gen_case(tier: Tier, seed: u64, idx: u64) -> Case {
                 2 => format!("k2: {long}: {long}: x"),
                 _ => format!("k2: '{long}"),
             };
-            format!("k1: {}\n{broken}\nk3: {}\n", if rng.chance(1, 2) { long.clone() } else { "1".into() }, if rng.chance(1, 2) { long.clone() } else { "3".into() })
+            let doc = format!("k1: {}\n{broken}\nk3: {}\n", if rng.chance(1, 2) { long.clone() } else { "1".into() }, if rng.chance(1, 2) { long.clone() } else { "3".into() });
+            // the end of the input as the last line's end: no line break, a lone CR, CR LF
+            match rng.below(5) {
+                0 => doc.trim_end_matches('\n').to_string(),
+                1 => format!("{}\r", doc.trim_end_matches('\n')),
+                2 => doc.replace('\n', "\r\n"),
+                _ => doc,
+            }
         }
         18 => {
             origin.push("numeric-looking".to_string());
